@@ -21,7 +21,7 @@ from pedal.sandbox import mocked
 from pedal.sandbox.constants import TOOL_NAME
 from pedal.sandbox.feedbacks import runtime_error, EXCEPTION_FF_MAP
 from pedal.sandbox.exceptions import SandboxHasNoFunction, SandboxHasNoVariable
-from pedal.sandbox.timeout import timeout
+from pedal.sandbox.timeout import timeout, _verif_sync
 from pedal.sandbox.result import SandboxResult
 from pedal.sandbox.tracer import TRACER_STYLES
 
@@ -176,6 +176,7 @@ class Sandbox:
             return timeout(self.allowed_time, self._execute,
                            code, filename, kind, False, **meta)
         except TimeoutError as timeout_exception:
+            _verif_sync('caller_timeout_handler')
             self._stop_patches()
             self._capture_exception(timeout_exception, sys.exc_info(),
                                     code, filename)
@@ -209,6 +210,7 @@ class Sandbox:
         # NOTE: https://docs.python.org/3/library/exceptions.html#SystemExit
         # This exception does not inherit from Exception and has to be caught separately
         except SystemExit as system_exit:
+            _verif_sync('student_exit_handler')
             self._stop_mocking(context)
             self._capture_exception(system_exit, sys.exc_info(),
                                     code, filename)
